@@ -152,9 +152,9 @@ def replay_and_judge(chk: Check, scen: list[dict], label: str, design_dev: Count
     negs = []
     if negatives:
         for name, pred, corrupt, clause in NEGATIVES:
-            for s, r in zip(scen, res):
+            for j, s, r in zip(jobs, scen, res):
                 if pred(s["sc"]) and r["obs"]["err"] == "none":
-                    negs.append({"id": f"neg-{label}-{name}", "sc": s["sc"], "obs": corrupt(r["obs"]), "expect": clause, "name": name})
+                    negs.append({"id": f"neg-{label}-{name}", "base": j["id"], "sc": s["sc"], "obs": corrupt(r["obs"]), "expect": clause, "name": name})
                     break
     d = chk.scratch.sub("traces")
     tf = d / "traces.ndjson"
@@ -169,6 +169,11 @@ def replay_and_judge(chk: Check, scen: list[dict], label: str, design_dev: Count
     chk.require(len(vs) == len(jobs) + len(negs), f"monitor produced {len(vs)} verdicts for {len(jobs) + len(negs)} traces")
     for n in negs:
         got = [f["clause"] for f in vs[n["id"]].get("fails") or []]
+        if vs[n["base"]].get("fails"):
+            # the real observation it was derived from is itself failing (a tree that violates C17 there): the corruption
+            # is not meaningful, the violation is reported through the normal path
+            chk.cov.setdefault("negative_traces_rejected", {})[n["name"]] = "skipped: base observation already failing"
+            continue
         chk.require(n["expect"] in got, f"negative trace {n['name']} ({json.dumps(n['sc'])}) was not rejected with {n['expect']}: monitor said {got}")
         chk.cov.setdefault("negative_traces_rejected", {})[n["name"]] = n["expect"]
     chk.cov["traces_validated_against_impl"] += len(jobs)
